@@ -112,7 +112,39 @@ theorem accept_implies_authentic (H : Nat → Id) (cw : Perm → Bool) (hcw : cw
   · rename_i new hne hnew
     split at h
     · cases h
-    · cases h
+    · -- the rebuild branch: FULL validation of the rebuilt tree
+      simp only at h
+      split at h
+      · cases h
+      · rename_i hval
+        split at h
+        · simp only [Prod.mk.injEq] at h
+          obtain ⟨_, rfl, rfl⟩ := h
+          exact ⟨fun c hc => Or.inl hc, by simp, by simp⟩
+        · simp only [Prod.mk.injEq] at h
+          obtain ⟨_, rfl, rfl⟩ := h
+          have inv := addInv_treeAdd t.attached new
+          have hall := validateAll_ok hval
+          have hauth : ∀ c ∈ (treeAdd t.attached new).added,
+              ∃ raw ∈ batch, Authentic H cw l t.rootId (treeAdd t.attached new).attached raw c := by
+            intro c hc
+            obtain ⟨raw, hm, _, hu⟩ := filterNew_ok hnew c (inv.added_new c hc)
+            have hmem : c ∈ (treeAdd t.attached new).attached := by
+              rw [inv.att_eq]; exact List.mem_append_right _ hc
+            exact ⟨raw, hm, authentic_of_checks hcw hnd hu (hall c hmem)⟩
+          refine ⟨?_, rfl, ?_⟩
+          · intro c hc
+            simp only at hc
+            rw [inv.att_eq] at hc
+            rcases List.mem_append.mp hc with hc | hc
+            · exact Or.inl hc
+            · exact Or.inr (hauth c hc)
+          · intro id hid
+            simp only [List.mem_map] at hid
+            obtain ⟨c, hc, rfl⟩ := hid
+            refine ⟨c, ?_, rfl, inv.added_fresh c hc, hauth c hc⟩
+            simp only
+            rw [inv.att_eq]; exact List.mem_append_right _ hc
     · simp only at h
       split at h
       · simp only [Prod.mk.injEq] at h
@@ -174,6 +206,7 @@ theorem open_implies_authentic_root (H : Nat → Id) (cw : Perm → Bool) (hcw :
 the model's explicit `.panic` outcome is unreachable from `AddRawChanges` (every change `Tree.Add`
 attaches has all its previous ids attached) -/
 theorem addRaw_never_panics (H : Nat → Id) (cw : Perm → Bool) (keep : Bool) (l : Log) (t : TreeSt)
+    (hwf : ∀ c ∈ t.attached, ∀ pid ∈ c.prev, hasId t.attached pid = true)
     (batch : List Raw) : (addRaw H cw keep l t batch).1 ≠ .err .panic := by
   unfold addRaw
   split
@@ -183,7 +216,21 @@ theorem addRaw_never_panics (H : Nat → Id) (cw : Perm → Bool) (keep : Bool) 
   · rename_i new hne hnew
     split
     · simp
-    · simp
+    · -- rebuild branch: the full validation visits the old changes too (`hwf`)
+      have inv := addInv_treeAdd t.attached new
+      simp only
+      split
+      · rename_i e he
+        intro hh
+        simp only [Outcome.err.injEq] at hh
+        subst hh
+        refine validateAll_no_panic cw keep l _ t.rootId _ ?_ he
+        intro c hc pid hp
+        rw [inv.att_eq] at hc
+        rcases List.mem_append.mp hc with hc | hc
+        · rw [inv.att_eq, hasId_append, hwf c hc pid hp]; rfl
+        · exact inv.prevs c hc pid hp
+      · split <;> simp
     · simp only
       split
       · simp
@@ -221,7 +268,11 @@ theorem reject_is_noop (H : Nat → Id) (cw : Perm → Bool) (keep : Bool) (l : 
   · rename_i new hne hnew
     split at h
     · simp only [Prod.mk.injEq] at h; exact ⟨h.2.2.symm, h.2.1.symm⟩
-    · cases h
+    · -- refused on the rebuild branch: the previous tree is restored (repair f2ef10f)
+      simp only at h
+      split at h
+      · simp only [Prod.mk.injEq] at h; exact ⟨h.2.2.symm, h.2.1.symm⟩
+      · split at h <;> cases h
     · simp only at h
       split at h
       · cases h
@@ -233,6 +284,78 @@ theorem reject_is_noop (H : Nat → Id) (cw : Perm → Bool) (keep : Bool) (l : 
           simp only [rollback]
           rw [inv.att_eq, rollback_filter _ _ inv.added_fresh]
         · cases h
+
+/-! ### the rebuild branch (`rebuildFromStorage`) -/
+
+/-- **the rebuild branch re-establishes the invariant from scratch.** When a batch takes the
+`rebuildFromStorage` branch and is accepted, EVERY change of the resulting tree — the ones that were
+attached before as well as the new ones — has just passed `validateChange` against the current log:
+it is the derived root, or its author could write (specification `permAt`) at the record it cites,
+which exists locally, and each parent is attached and cites a record that is not later. (The normal
+branch validates only what it attached and relies on the invariant of the old tree.) -/
+theorem rebuild_branch_revalidates_everything (H : Nat → Id) (cw : Perm → Bool) (hcw : cw 0 = false) (keep : Bool)
+    (l : Log) (hnd : (l.map (·.id)).Nodup) (t : TreeSt) (batch : List Raw) (added : List Id) (t' : TreeSt)
+    (hr : takesRebuild H t batch = true) (h : addRaw H cw keep l t batch = (.ok, added, t')) :
+    ∀ c ∈ t'.attached, c.derived = true ∨
+      ∃ i, idxOf l c.aclHead = some i ∧ cw (permAt l i c.identity) = true ∧
+        (c.id = t.rootId ∨ ∀ pid ∈ c.prev, ∃ pc ∈ t'.attached, pc.id = pid ∧
+          (pc.derived = true ∨ ∃ j, idxOf l pc.aclHead = some j ∧ j ≤ i)) := by
+  unfold takesRebuild at hr
+  unfold addRaw at h
+  cases hfn : filterNew H t batch with
+  | error e => rw [hfn] at hr; cases hr
+  | ok new =>
+    cases new with
+    | nil => rw [hfn] at hr; cases hr
+    | cons c0 cs =>
+      rw [hfn] at hr h
+      simp only [beq_iff_eq] at hr
+      simp only [hr] at h
+      have inv := addInv_treeAdd t.attached (c0 :: cs)
+      split at h
+      · cases h
+      · rename_i hval
+        have hall := validateAll_ok hval
+        split at h
+        · rename_i hemp
+          simp only [Prod.mk.injEq] at h
+          obtain ⟨_, _, rfl⟩ := h
+          intro c hc
+          have hatt : (treeAdd t.attached (c0 :: cs)).attached = t.attached := by
+            rw [inv.att_eq]
+            have : (treeAdd t.attached (c0 :: cs)).added = [] := by
+              simpa [List.isEmpty_iff] using hemp
+            rw [this, List.append_nil]
+          rw [← hatt] at hc ⊢
+          exact validateChange_ok hcw hnd (hall c hc)
+        · simp only [Prod.mk.injEq] at h
+          obtain ⟨_, _, rfl⟩ := h
+          intro c hc
+          exact validateChange_ok hcw hnd (hall c hc)
+
+/-- the tree of the witness below: root 1; `c1` (id 5) on the root; snapshot `S` (id 6) on `c1`;
+`c2` (id 3) on the ROOT but naming `S` as its snapshot — `S` is not an ancestor of `c2` -/
+def rollbackWitness : TreeSt :=
+  ⟨1, [⟨1, false, 0, 0, [], 0, true⟩, ⟨5, false, 0, 0, [1], 1, false⟩, ⟨6, false, 0, 0, [5], 1, true⟩,
+       ⟨3, false, 0, 0, [1], 6, false⟩], [3, 6], [1, 5, 6, 3], [3, 6]⟩
+
+/-- the same changes in the order of the storage (order ids follow the iteration, children by id:
+1, 3, 5, 6) -/
+def rollbackWitnessStorageOrder : List Change :=
+  [⟨1, false, 0, 0, [], 0, true⟩, ⟨3, false, 0, 0, [1], 6, false⟩, ⟨5, false, 0, 0, [1], 1, false⟩,
+   ⟨6, false, 0, 0, [5], 1, true⟩]
+
+/-- **why repair f2ef10f was needed** (`decide` witness). Before the repair a batch refused on the
+rebuild branch was rolled back by RELOADING the tree from the storage. Reloading is not the identity:
+`c2` comes before its (non-ancestor) snapshot `S` in the storage order, its previous id is attached,
+its snapshot id is not → `AddFast` drops it. A refused batch changed the attached set and the heads. -/
+theorem prerepair_rollback_by_reload_not_noop :
+    rollbackByReload rollbackWitness rollbackWitnessStorageOrder ≠ rollbackWitness ∧
+    (rollbackByReload rollbackWitness rollbackWitnessStorageOrder).heads = [6] := by
+  decide
+
+/-- the reload itself is faithful when the storage order happens to be the attach order -/
+example : reload rollbackWitness.attached = rollbackWitness.attached := by decide
 
 /-- the in-memory rollback on its own: removing what `Tree.Add` attached from the attached set it
 produced gives back the old attached set (new changes never reuse an attached id) -/
@@ -539,6 +662,17 @@ example : addRaw Ex.H cwGen false Ex.log Ex.t0 [Ex.b, Ex.a] = (.err .noPerm, [],
 example : addRaw Ex.H cwGen false Ex.log Ex.t0 [Ex.a, Ex.aForged] = (.err .sig, [], Ex.t0) := by decide
 /-- ACL-head monotonicity -/
 example : addRaw Ex.H cwGen false Ex.log Ex.t1 [Ex.older] = (.err .aclOrder, [], Ex.t1) := by decide
+/-- the rebuild branch: `y` names `x` (new, not a snapshot) as its snapshot → `rebuildFromStorage`;
+both attach, the whole tree validates -/
+def Ex.x : Raw := ⟨20, ⟨20, some (⟨120, false, 1, 1, [10], 10, false⟩, .sign 1 120)⟩⟩
+def Ex.y : Raw := ⟨21, ⟨21, some (⟨121, false, 1, 1, [20], 20, false⟩, .sign 1 121)⟩⟩
+/-- same, but written after the demotion (record 2): refused by the full validation -/
+def Ex.yBad : Raw := ⟨22, ⟨22, some (⟨122, false, 1, 2, [20], 20, false⟩, .sign 1 122)⟩⟩
+example : takesRebuild Ex.H Ex.t0 [Ex.x, Ex.y] = true := by decide
+example : (addRaw Ex.H cwGen false Ex.log Ex.t0 [Ex.x, Ex.y]).1 = .ok ∧
+    (addRaw Ex.H cwGen false Ex.log Ex.t0 [Ex.x, Ex.y]).2.1 = [20, 21] := by decide
+/-- `reject_is_noop` on the rebuild branch -/
+example : addRaw Ex.H cwGen false Ex.log Ex.t0 [Ex.x, Ex.yBad] = (.err .noPerm, [], Ex.t0) := by decide
 example : (Ex.log.map (·.id)).Nodup := by decide
 example : Function.Injective Ex.H := fun _ _ h => h
 
